@@ -58,6 +58,17 @@ def ctx_obj(ctx, **kw):
     return Obj("ctx", **attrs)
 
 
+def template_obj(ctx, **kw):
+    """Stand-in for gwf.core.AnonymousTarget (what a template function returns), class-backed so that attrs.asdict / fields / evolve see its declared fields."""
+    try:
+        ci = ctx.index.cls("gwf.core:AnonymousTarget")
+    except Exception:
+        ci = None
+    if ci is not None:
+        kw["__class__"] = ci
+    return Obj("template", **kw)
+
+
 def click_defaults(ctx, fn):
     """{parameter name: value click passes when the option/argument is not given} read from the command's click.option / click.argument decorators."""
     idx = ctx.index
@@ -929,15 +940,17 @@ def anchored_norm(value, wd, rel):
     import posixpath
     if not isinstance(value, str):
         return False
-    has_abs = "⟦abs:" in value
-    plain = value.replace("⟦abs:", "").replace("⟦norm:", "")
-    depth = value.count("⟦abs:") + value.count("⟦norm:")
+    # markers: abs: = anchored and normalised (os.path.abspath, Path.resolve), norm: = normalised only (normpath), anch: = anchored only (Path.absolute keeps '..')
+    anchored = "⟦abs:" in value or "⟦anch:" in value
+    normalised = "⟦abs:" in value or value.startswith("⟦norm:")     # a normalisation applied before the anchoring join does not cover the joined result
+    plain = value.replace("⟦abs:", "").replace("⟦norm:", "").replace("⟦anch:", "")
+    depth = value.count("⟦abs:") + value.count("⟦norm:") + value.count("⟦anch:")
     for _ in range(depth):
         if plain.endswith("⟧"):
             plain = plain[:-1]
     want = wd + "/" + rel
     same = posixpath.normpath(plain.replace(wd, "/WD")) == posixpath.normpath(want.replace(wd, "/WD"))
-    return has_abs and same
+    return anchored and normalised and same
 
 
 # --------------------------------------------------------------------------- should_run on a finite witness table
@@ -2651,22 +2664,22 @@ def eval_workflow_api(ctx):
 
     t1 = call("target", "T1", ["in"], ["out"], cores=8)
     out["target"] = t1
-    tmpl = Obj("template", inputs=["ti"], outputs=["to"], options={"memory": "4g", "cores": 4}, working_dir=None, spec="SPEC", protect=set(), group="g")
+    tmpl = template_obj(ctx, inputs=["ti"], outputs=["to"], options={"memory": "4g", "cores": 4}, working_dir=None, spec="SPEC", protect=set(), group="g")
     out["from_template"] = call("target_from_template", "T2", tmpl, cores=16)
-    tmpl_wd = Obj("template", inputs=["ti"], outputs=["to2"], options={}, working_dir="/elsewhere", spec="SPEC", protect=set(), group="g")
+    tmpl_wd = template_obj(ctx, inputs=["ti"], outputs=["to2"], options={}, working_dir="/elsewhere", spec="SPEC", protect=set(), group="g")
     out["from_template_wd"] = call("target_from_template", "T3", tmpl_wd)
     out["duplicate"] = call("target", "T1", [], ["other"])
     out["duplicate_template"] = call("target_from_template", "T2", tmpl)
     out["registered"] = {k: v for k, v in wf.targets.items()}
     # protect entries are kept whatever their spelling (they are normalised later, together with the outputs)
     out["protect"] = call("target", "T4", [], ["bam/x.bam", "/abs/y"], protect=["./bam/x.bam", "/abs/../abs/y"])
-    tmpl_p = Obj("template", inputs=[], outputs=["bam/z.bam"], options={}, working_dir=None, spec="SPEC", protect={"./bam/z.bam"}, group="g")
+    tmpl_p = template_obj(ctx, inputs=[], outputs=["bam/z.bam"], options={}, working_dir=None, spec="SPEC", protect={"./bam/z.bam"}, group="g")
     out["protect_template"] = call("target_from_template", "T5", tmpl_p)
     # every target gets its own options dictionary (targets are mutable; the backend defaults are merged into it at submission)
     out["own_options_defaults"] = call("target", "T6", [], ["o6"])
     shared = {"memory": "8g"}
     wf2 = Obj("workflow", name="wf2", working_dir="/wfdir", defaults={}, targets={}, **{"__class__": wcls})
-    tmpl_o = Obj("template", inputs=[], outputs=["o7"], options=shared, working_dir=None, spec="SPEC", protect=set(), group="g")
+    tmpl_o = template_obj(ctx, inputs=[], outputs=["o7"], options=shared, working_dir=None, spec="SPEC", protect=set(), group="g")
     try:
         out["own_options_template"] = interp.call(idx.method(wcls, "target_from_template"), ("T7", tmpl_o), {}, self_obj=wf2)
     except Raised as exc:
@@ -2736,7 +2749,7 @@ def eval_workflow_map(ctx, name=None, inputs=("a", ("b", "c"), {"x": "d"})):
 
     def copy_file(*a, **k):
         calls.append((a, dict(k)))
-        return Obj("template", inputs=list(a), outputs=[], options={}, working_dir=None, spec="S", protect=set(), group="g")
+        return template_obj(ctx, inputs=list(a), outputs=[], options={}, working_dir=None, spec="S", protect=set(), group="g")
 
     def construct(cls, args, kwargs):
         if cls.name == "Target":
@@ -2911,4 +2924,59 @@ def workers_command_witness(ctx):
         if wd != PROJ:
             diffs.append(f"{what} started from another directory serves {str(wd).replace('⟦', '<').replace('⟧', '>')} instead of the project directory the workflow file lives in: the pool "
                          "writes task logs to (and fails on a missing) .gwf/logs under the wrong directory, so tasks that exited 0 end as failed and `gwf logs` finds nothing")
+    return n, diffs, None
+
+
+# --------------------------------------------------------------------------- `gwf info` as a whole command
+def eval_info_command(ctx, targets=(), fmt="json"):
+    """`gwf info [targets]` on the witness project: the JSON document printed (json format) or the printed lines (pretty)."""
+    fn = ctx.index.func("gwf.plugins.info:info")
+    T, graph, hooks = _witness_graph(ctx)
+    docs, lines = [], []
+    hooks.update({
+        "json.dumps": lambda o, *a, **k: (docs.append(o), "JSON")[1],
+        "builtins.print": lambda *a, **k: lines.append(" ".join(str(x) for x in a)),
+        "click.echo": lambda *a, **k: lines.append(a[0] if a else ""), "click.secho": lambda *a, **k: lines.append(a[0] if a else ""),
+        "click.format_filename": lambda v, *a, **k: v,
+    })
+    interp = PureInterp(ctx, hooks=hooks)
+    interp.max_depth = 20
+    try:
+        call_command(ctx, interp, fn, (ctx_obj(ctx, working_dir="/p"), tuple(targets), fmt))
+    except Raised as exc:
+        return {"raised": exc.kind}, None
+    except Unsupported as exc:
+        return None, f"{exc}"
+    return {"docs": docs, "lines": lines}, None
+
+
+def info_command_witness(ctx):
+    P = WITNESS_PROJECT
+    names = list(P)
+    deps = {n: sorted(P[n][0]) for n in names}
+    dependents = {n: sorted(m for m in names if n in P[m][0]) for n in names}
+    diffs, n = [], 0
+    some = names[0]
+    for label, targets, want in (("gwf info", (), set(names)), (f"gwf info {some}", (some,), {some}), ("gwf info 'nomatch*'", ("nomatch*",), set())):
+        out, err = eval_info_command(ctx, targets)
+        if err:
+            return n, diffs, err
+        n += 1
+        if "raised" in out:
+            if want:
+                diffs.append(f"`{label}` ends with {out['raised']}")
+            continue
+        if len(out["docs"]) != 1 or not hasattr(out["docs"][0], "keys"):
+            diffs.append(f"`{label}` prints {len(out['docs'])} JSON documents")
+            continue
+        doc = out["docs"][0]
+        if set(doc) != want:
+            diffs.append(f"`{label}` reports the targets {sorted(doc)}; the workflow's (selected) targets are {sorted(want)}: a target is missing from (or added to) the report, so the reported "
+                         "dependents are no longer the inverse of the reported dependencies")
+            continue
+        for t in sorted(doc):
+            rec = dict(doc[t])
+            gd, gt = sorted(rec.get("dependencies", [])), sorted(rec.get("dependents", []))
+            if gd != deps[t] or gt != dependents[t]:
+                diffs.append(f"`{label}`: target {t} is reported with dependencies {gd} and dependents {gt}; the graph has {deps[t]} and {dependents[t]}")
     return n, diffs, None
